@@ -157,8 +157,8 @@ def native_search(u, under, f, seed, N):
 
 
 REPLAY_TMPL = r'''
-#include <masa_internal.h>
 #include <%(header)s>
+#include <cmath>
 #include <cstdio>
 #include <cstdlib>
 namespace MASA { void masa_exit(int c) { std::printf("masa_exit(%%d)\n", c); std::exit(c); } }
@@ -188,7 +188,7 @@ def replay_args(f, args):
 def replay_real(cls, src, method, members, args, workdir, extra='', header='masa_internal.h'):
     """evaluate the REAL C++ member function (from /repo's working tree) at a concrete input -> long double as str"""
     sets = '\n'.join('  o.set_var("%s", %sL);' % (k, _ld(v)) for k, v in members.items())
-    prog = REPLAY_TMPL % {'cls': cls, 'sets': sets, 'method': method, 'args': ', '.join(_arg(a) for a in args), 'extra': extra, 'header': header}
+    prog = REPLAY_TMPL % {'cls': cls, 'sets': sets, 'method': method, 'args': ', '.join(_arg(a) for a in args), 'extra': extra, 'header': header}     # smasa.h includes masa_internal.h itself (which has no include guard)
     os.makedirs(workdir, exist_ok=True)
     open(os.path.join(workdir, 'replay.cpp'), 'w').write(prog)
     srcs = [os.path.join(SRC, src)]
@@ -369,7 +369,7 @@ def run_numeric(prop, units, tier, seed, trusted_extra=(), design_ref='', lemmas
                     kf_obl += 1
                 continue
             # the extracted text disagrees with the spec but the real class does not: extraction is wrong
-            rep.undecide('%s: native twin found an input but the real library agrees with the spec there (extractor/spec issue)' % f.cname)
+            rep.undecide('%s: native twin found an input but %s' % (f.cname, 'the replay on the real class could not be built/run: ' + str(rlog)[-300:].replace('\n', ' ') if real is None else 'the real library agrees with the spec there (extractor/spec issue)'))
             continue
         if r.status == 'refuted':
             if not rep.violation(key, payload, no_input=True):
@@ -399,9 +399,13 @@ def run_numeric(prop, units, tier, seed, trusted_extra=(), design_ref='', lemmas
                 if real is not None and differs(real, found['want']):
                     rep.violation(key, payload)
                 else:
-                    rep.undecide('%s: bounded stand-in found an input the real library does not reproduce' % f.cname)
+                    rep.undecide('%s: bounded stand-in found an input (code %s, contract %s) that %s' % (f.cname, found.get('got'), found.get('want'),
+                                 'the real library does not reproduce (real value %s)' % real if real is not None else 'could not be replayed: ' + rlog[-300:]))
                 continue
             ev_ = found.get('evaluated', 0)
+            if 'no ENS_EQ' in str(found.get('error', '')):
+                bounded_info.append({'function': f.cname, 'label': 'bounded', 'result': 'not sampled: the contract has no ENS_EQ clause to compare natively (validated through its callers)', 'reason': breason.get(f.cname, '')})
+                continue
             if ev_ < 200:
                 rep.undecide('%s: bounded stand-in evaluated only %d admissible samples (%s)' % (f.cname, ev_, found.get('error', '')))
                 continue
